@@ -47,7 +47,10 @@ EXPLANATION = (
     'Absence findings are reported only in a closed world: a value that goes through a callee the analysis did not follow is carried as a '
     'maybe-label and turns the verdict into undecided. '
     'R1 also covers the dyndep writer scripts/depaccumulate.py (providers of linked targets reach the dyndep inputs). '
-    'NOT decided: results that differ between the first and later calls of a lazily initialising function (handle_cpp_import_std returning '
+    'R1 also has a pairing row (must-pass-through): every path that records vs_module_defs also adds it to link_depends; and rows for '
+    'the depaccumulate statement (scan results of all transitively linked targets are its inputs). '
+    'NOT decided: arithmetic agreement between two functions (the number of unity objects named by _determine_ext_objs vs the '
+    'number of unity files generate_unity_files() creates - a value-level ceiling division); results that differ between the first and later calls of a lazily initialising function (handle_cpp_import_std returning '
     'the std-module dependency only when it creates the statement); attribute stores on a proxy object instead of the underlying target '
     '(interpreter/mesonmain.py, needs receiver types); path-sensitive loss (a dependency list reset on one branch but still used on the other, e.g. modules/i18n.py '
     'XgettextProgram.extract - the may-flow merges the branches); loops that legitimately mix searching and collecting; --layout=flat '
@@ -93,6 +96,11 @@ def YIELD(k: T.Optional[int] = None) -> T.Tuple[T.Any, ...]:
 def RET_ALL(k: T.Optional[int] = None) -> T.Tuple[T.Any, ...]:
     """Universal form: EVERY accumulation into the returned (position k) container carries the source."""
     return ('return-all', k)
+
+
+def PAIRED(chain_a: str, chain_b: str) -> T.Tuple[T.Any, ...]:
+    """Must-pass-through pairing: every path on which the source is stored into chain_a also stores it into chain_b."""
+    return ('paired', chain_a, chain_b)
 
 
 def STORE(chain: str) -> T.Tuple[T.Any, ...]:
@@ -163,6 +171,12 @@ R1_TABLE: T.List[Ob] = [
     Ob(NB, 'NinjaBackend.generate_shsym', 'call:self.get_target_filename()', INPUT, 'the symbol file is made from the library'),
     Ob(NB, 'NinjaBackend.__generate_sources_structure', 'param:root', RET_ALL(0),
        'structured sources: the consumer is ordered after the copies placed in the private dir, not after their originals'),
+    Ob(NB, 'NinjaBackend.generate_dependency_scan_target', 'call:target.get_all_linked_targets()', INPUT,
+       'dyndep: scan results of all transitively linked targets (module providers) feed depaccumulate'),
+    Ob(NB, 'NinjaBackend.generate_dependency_scan_target', 'call:self.flatten_object_list()[1]', INPUT,
+       'dyndep: scan results of Fortran object-providing targets feed depaccumulate'),
+    Ob(BUILD, 'BuildTarget.process_vs_module_defs_kw', 'call:kwargs.get()', PAIRED('self.vs_module_defs', 'self.link_depends'),
+       'a module definition file given to the linker is an implicit input of the link step'),
     # dyndep edges written at build time (scripts/depaccumulate.py) -----------------------------------------------------
     Ob(DEPACC, 'process_rules', 'param:extra_rules', YIELD(2), 'module providers in linked targets become dyndep inputs'),
     Ob(DEPACC, 'process_rules', 'param:rules', YIELD(2), 'compiled-module-path of modules of the target itself'),
@@ -351,7 +365,12 @@ def check_ob(ctx: RuleCtx, an: Analyzer, ff: FuncFlow, ob: Ob, siblings: T.Seque
         if not regs:      # no registered element at all: any element handed to an unfollowed callee counts
             for s in ff.sinks():
                 roots |= set(ff.elem_roots(s))
-        _closed_world_guard(ff, ob, seen_labels, roots)
+        every: T.Set[str] = set(seen_labels)
+        for g in ff.elem_groups():            # the source may go, through an unfollowed callee, to another element than the one chosen
+            for s in g:
+                every |= ff.sink_value(s)[1]
+                roots |= set(ff.elem_roots(s))
+        _closed_world_guard(ff, ob, every, roots)
         seen = '; '.join(f'{s.kind} `{s.desc}` carries [{_interesting(ff.sink_value(s)[1], 5)}]' for s in regs[:6])
         extra = ''
         if loose:
@@ -404,6 +423,36 @@ def check_ob(ctx: RuleCtx, an: Analyzer, ff: FuncFlow, ob: Ob, siblings: T.Seque
             ctx.violation(mod, qual, f'{src} -> {"|".join(params)} of self.{callee}(...) [at least {quant}]',
                           f'{src} ({why}) reaches parameter {"/".join(params)} of only {len(good)} of {len(calls)} self.{callee}(...) calls, '
                           f'at least {quant} required. Calls without it: ' + '; '.join(f'`{t[:90]}`' for t, _, _ in bad), bad[0][2] if bad else ff.fn)
+        return
+    if kind == 'paired':
+        _, chain_a, chain_b = ob.sink
+        a_nodes = [(n, v, i) for n, v, i in ff.stores(chain_a) if src in ff.origins_at(v, n, i)]
+        if not a_nodes:
+            raise Undecided(f'{qual}: no store of {src} into {chain_a} in this function (moved into a helper?)')
+        b_all = ff.stores(chain_b)
+        b_nodes = [n for n, v, i in b_all if src in ff.origins_at(v, n, i)]
+        if not b_nodes:
+            leaf = chain_b.rsplit('.', 1)[-1]
+            for n in ff.cfg.nodes:
+                for c in ff.node_calls(n):
+                    cal = ff._callee(c)
+                    if cal is not None and cal[3] is not ff.fn and an.mentions(cal[3], leaf, 2):
+                        raise Undecided(f'{qual}: {chain_b} is not written here, but the helper {cal[2]} mentions it')
+            for n, v, i in b_all:
+                _closed_world_guard(ff, ob, ff.origins_at(v, n, i))
+        avoid = b_nodes
+        no_exc = lambda a, b, lab: lab != 'exc'   # noqa: E731
+        before = ff.cfg.reachable([ff.cfg.entry], avoid, edge_ok=no_exc, include_start=True)
+        for n, v, i in a_nodes:
+            if any(n.id == b.id for b in b_nodes):
+                continue
+            after = ff.cfg.reachable([n], avoid, edge_ok=no_exc)
+            if n.id in before and ff.cfg.exit_return.id in after:
+                ctx.violation(mod, qual, f'{src}: {chain_a} without {chain_b}',
+                              f'`{short(n.expr(), 90)}` records {src} in {chain_a} ({why}) on a path that never adds it to {chain_b}: '
+                              f'the file is used by the step but is not a declared input of it', n.ast)
+                return
+        ctx.ok(f'{qual}: every path that stores {src} into {chain_a} ({len(a_nodes)} store(s)) also adds it to {chain_b}')
         return
     if kind == 'return-all':
         k = ob.sink[1]
